@@ -172,6 +172,7 @@ DRIVERS = {"clock": ("harness.checks.c13", "clock_trace", "ClockTrace", FAMILY),
 
 def run(tier, seed):
     rep = Report("C13", tier, seed)
+    rep.add_proof("ClockInverseAll")
     rng = random.Random(seed)
     rep.add_mc("MC_Clock", tlc.model_check("MC_Clock", "MC_Clock.cfg" if tier == "thorough" else "MC_Clock_quick.cfg",
                                            must_take=["Tick"]))
